@@ -14,7 +14,7 @@ from vf.harness import assemble
 LEVEL = "fault_enumeration"
 RULE = (
     "fault enumeration: valid generated programs rendered with random comments, blank lines, indentation, multi-line /* */ comments, "
-    "blocks, macro definitions and (nested) .include files x 8 classes of erroneous statement (undefined symbol in an operand / in a data "
+    "blocks, macro definitions and (nested) .include files x 9 classes of erroneous statement (undefined symbol in an operand / in a data "
     "directive, bad size suffix, bad outer / inner index register, unterminated string before a newline / at end of input, size suffix "
     "missing at end of line) inserted at every statement position (thorough) or 8 positions (quick), in the main file and in included "
     "files; the reported file, zero-based line, quoted line text and (lexical errors) column are judged against the known insertion point; "
@@ -34,6 +34,7 @@ FAULTS = {
     "bad_outer_index": ("scan", "lda 0x10,q", ",q", 1),
     "bad_inner_index": ("scan", "lda (0x10,q)", ",q", 1),
     "unterminated_string": ("scan", ".ascii 'abc", "'abc", 0),
+    "unterminated_string_backslash": ("scan", ".ascii 'C:\\snes\\", "'C:", 0),
     "unterminated_string_at_eof": ("scan_eof", ".ascii 'abc", "'abc", 0),
     "suffix_missing_at_eol": ("scan", "lda.", "lda.", 4),
 }
@@ -55,7 +56,7 @@ def positions(prog: list) -> list[tuple[list, int]]:
 
 
 def classify(name: str, got_line: int, want_line: int, col) -> str:
-    if name in ("unterminated_string", "suffix_missing_at_eol") and got_line == want_line + 1:
+    if name in ("unterminated_string", "suffix_missing_at_eol", "unterminated_string_backslash") and got_line == want_line + 1:
         return "newline-consumed-before-position"
     return "wrong-location"
 
